@@ -37,7 +37,7 @@ Definition PGN_list : Z := 126464.
 
 (* ---------- messages ---------- *)
 Record bmsg := { b_pgn : Z; b_src : Z; b_data : list Z }.
-Definition pl (m:bmsg) : list Z := firstn 223 (b_data m).                 (* Data[0..DataLen-1], DataLen <= 223 *)
+Definition pl (m:bmsg) : list Z := map (fun b => b mod 256) (firstn 223 (b_data m)).     (* Data[0..DataLen-1] (unsigned char), DataLen <= 223 *)
 Definition dlen (m:bmsg) : Z := Z.of_nat (length (pl m)).
 Definition tmsg (m:bmsg) : msg := {| mdata := pl m ++ repeat 0 (223 - length (pl m)); mlen := dlen m |}.
 
